@@ -65,17 +65,19 @@ void DtlsSim::flush(int role) {
         if (it != fates.end() && faults_enabled) { f = it->second; }
         DtlsEvent ev; ev.type = 0; ev.dir = dir; ev.data = d; ev.emit_index = s.emit_index;
         switch (f.kind) {
-        case FATE_DROP: counters["fault.drop"]++; last_fault_time = now; last_fault_kind = "drop"; break;
+        case FATE_DROP: counters["fault.drop"]++; last_fault_time = now; last_fault_kind = "drop"; fires_after_heal[0] = fires_after_heal[1] = 0; break;
         case FATE_DUP:
             counters["fault.dup"]++; last_fault_kind = "dup";
             ev.at = now + LATENCY_MS; push(ev);
             ev.at = now + LATENCY_MS + (f.a > 0 ? f.a : 1); ev.is_replay = true; push(ev);
             if (ev.at > last_fault_time) { last_fault_time = ev.at; }
+            fires_after_heal[0] = fires_after_heal[1] = 0;
             break;
         case FATE_DELAY:
             counters["fault.delay"]++; last_fault_kind = "delay";
             ev.at = now + LATENCY_MS + f.a; push(ev);
             if (ev.at > last_fault_time) { last_fault_time = ev.at; }
+            fires_after_heal[0] = fires_after_heal[1] = 0;
             break;
         default: ev.at = now + LATENCY_MS; push(ev); break;
         }
@@ -144,7 +146,7 @@ void DtlsSim::run_until(int64_t t_end, int max_events) {
             if (emitted.empty()) { counters["fault_not_fired"]++; break; }
             const DtlsSentDg &s = emitted[(size_t) ((uint64_t) e.a % emitted.size())];
             DtlsEvent d; d.type = 0; d.dir = s.dir; d.data = s.data; d.at = now; d.is_replay = true; d.emit_index = s.emit_index;
-            counters["fault.replay"]++; last_fault_time = now; last_fault_kind = "replay";
+            counters["fault.replay"]++; last_fault_time = now; last_fault_kind = "replay"; fires_after_heal[0] = fires_after_heal[1] = 0;
             last_replayed_kind = s.recs.empty() ? "empty" : record_kind(s.recs.back());
             counters["fault.replay." + last_replayed_kind]++;
             MxEndpoint &r = ep(s.dir == DIR_C2S ? 1 : 0);
